@@ -9,8 +9,8 @@
     the model of `parse.Expr` on that item list (correspondence C01parse).
   * THE LAST ITEM IS NOT EOF.  In expression mode the lexer starts in `lexInsideTag`, i.e. inside a
     "tag" that never closes: at the end of a well-formed expression it sends the Error item
-    "unclosed tag" (`case r == eof: return l.errorfAt(l.tagStart, …)`, position `tagStart = 0`, the
-    message text is not modelled) and stops.  `parse.Expr` has returned before reading it — the
+    "unclosed tag" (`case r == eof: return l.errorfAt(l.tagStart, …)`, position `tagStart = 0`; the
+    model records the class of the message, `clsTag`, not its text) and stops.  `parse.Expr` has returned before reading it — the
     parser stops in front of any token that does not continue the expression.  The theorems are
     stated with this ACTUAL final item (`errTk`), and the token-level theorem is used in its
     variant for an arbitrary terminating follower (`Lemmas.ParserRound.parse_slot_entry_term`).
@@ -35,8 +35,9 @@ namespace SoyVerif.Props.C17b
 open SoyVerif SoyVerif.Model SoyVerif.Model.Lex SoyVerif.Model.Parser SoyVerif.Model.PrintTokens
 open SoyVerif.Model.Printer SoyVerif.Lemmas.LexPrint SoyVerif.Lemmas.ParserBasic
 
-/-- the token of the Error item that ends every item list of `lexExpr` on a complete expression -/
-def errTk : Tk := ⟨.tError, []⟩
+/-- the token of the Error item that ends every item list of `lexExpr` on a complete expression
+    ("unclosed tag"; the model keeps the class of the message, `clsTag`, in `val`) -/
+def errTk : Tk := ⟨.tError, [clsTag]⟩
 
 section
 variable (ff : UInt64 → Bytes) (pf : Bytes → Option UInt64)
@@ -47,29 +48,29 @@ include LT
     multi-byte runes, invalid UTF-8) back as one String token with that spelling -/
 theorem lex_quoted_string (v : Bytes) :
     lexAll (quoteString v) true =
-      .items [⟨.tString, (quoteString v).length, quoteString v⟩, ⟨.tError, 0, []⟩] := by
+      .items [⟨.tString, (quoteString v).length, quoteString v⟩, errItem] := by
   have h := lexAll_pieces LT [.tok (tString (quoteString v))]
     ⟨.str _ _ (strOk_quoteString v), trivial⟩ (by simp [unsp, SoyVerif.Lemmas.ParserAdj.typs, SoyVerif.Lemmas.ParserAdj.chainOK,
       SoyVerif.Lemmas.ParserAdj.pairOK, tString])
-  simpa [spell, emitAll, itemOf, tString, errItem] using h
+  simpa [spell, emitAll, itemOf, tString] using h
 
 /-- per token, integers: `scanNumber` reads `strconv.FormatInt(v, 10)` back as one Integer token -/
 theorem lex_int (v : Int) :
-    lexAll (fmtInt v) true = .items [⟨.tInteger, (fmtInt v).length, fmtInt v⟩, ⟨.tError, 0, []⟩] := by
+    lexAll (fmtInt v) true = .items [⟨.tInteger, (fmtInt v).length, fmtInt v⟩, errItem] := by
   have h := lexAll_pieces LT [.tok ⟨.tInteger, fmtInt v⟩]
     ⟨tok_int v (closer_numEnd closer_nil), trivial⟩
     (by simp [unsp, SoyVerif.Lemmas.ParserAdj.typs, SoyVerif.Lemmas.ParserAdj.chainOK,
       SoyVerif.Lemmas.ParserAdj.pairOK, SoyVerif.Lemmas.ParserAdj.beforeOperand])
-  simpa [spell, emitAll, itemOf, errItem] using h
+  simpa [spell, emitAll, itemOf] using h
 
 /-- per token, floats: any spelling of the float shape (`floatSpelling`) is read back as one Float token -/
 theorem lex_float (val : Bytes) (h : floatSpelling val = true) :
-    lexAll val true = .items [⟨.tFloat, val.length, val⟩, ⟨.tError, 0, []⟩] := by
+    lexAll val true = .items [⟨.tFloat, val.length, val⟩, errItem] := by
   have h := lexAll_pieces LT [.tok ⟨.tFloat, val⟩]
     ⟨tok_float h (closer_numEnd closer_nil), trivial⟩
     (by simp [unsp, SoyVerif.Lemmas.ParserAdj.typs, SoyVerif.Lemmas.ParserAdj.chainOK,
       SoyVerif.Lemmas.ParserAdj.pairOK, SoyVerif.Lemmas.ParserAdj.beforeOperand])
-  simpa [spell, emitAll, itemOf, errItem] using h
+  simpa [spell, emitAll, itemOf] using h
 
 /-- BYTE LEVEL (FULL): lexing the printed text of a tree yields exactly its printed tokens — each
     with its spelling, in order, spaces skipped — followed by the Error item of the end of input.
